@@ -128,7 +128,7 @@ Definition outcome (a : ares) : option astate :=
 Definition op_hole (op : aop) : option nat :=
   match op with
   | AddHole h _ | SetSurveys h _ | AddData h _ _ _ _ _ _ _ | AddPG h _ _ | SetValues h _ _ | Rename h _ _
-  | RemoveData h _ _ | RemovePG h _ _ | RemoveHole h _ => Some h
+  | RemoveData h _ _ | RemovePG h _ _ | RemoveHole h _ | AddObjData h _ _ _ | SaveHole h | RemoveViaGroup h _ | SetText h _ _ => Some h
   | Reopen => None
   end.
 
@@ -208,6 +208,26 @@ Proof.
     destruct (live_hole s h) eqn:L; simpl in Ho; [|discriminate]. split; [apply live_hole_In; exact L|].
     destruct (memb pg (pgs_of s h)); simpl in Ho; [|discriminate].
     apply soft_or_hard_out in Ho. eapply via_rm_pg. exact Ho.
+  - (* AddObjData *)
+    destruct (live_hole s h) eqn:L; simpl in Ho; [|discriminate]. split; [apply live_hole_In; exact L|].
+    destruct (Nat.ltb name 100); [discriminate|].
+    destruct (has_key name (keys_of s h)); [inversion Ho; subst; apply via_refl; reflexivity|].
+    destruct (negb (fresh s did)); [discriminate|]. apply soft_or_hard_out in Ho.
+    eapply via_with_recs_l. eapply via_lput; [exact Ho | reflexivity].
+  - (* SaveHole *)
+    destruct (live_hole s h) eqn:L; simpl in Ho; [|discriminate]. split; [apply live_hole_In; exact L|].
+    apply soft_or_hard_out in Ho.
+    match type of Ho with match lput s ?b with _ => _ end = _ => destruct (lput s b) as [s2|e] eqn:E; [|discriminate] end.
+    eapply via_trans; [eapply via_lput; [exact E | destruct (sfetch (st s) L_SURV h 0); reflexivity] | eapply via_lput; [exact Ho | reflexivity]].
+  - (* RemoveViaGroup *)
+    destruct (live_hole s h) eqn:L; simpl in Ho; [|discriminate]. split; [apply live_hole_In; exact L|].
+    destruct (negb (owns s h d)); [discriminate|]. inversion Ho; subst. apply via_refl; reflexivity.
+  - (* SetText *)
+    destruct (live_hole s h) eqn:L; simpl in Ho; [|discriminate]. split; [apply live_hole_In; exact L|].
+    destruct (negb (owns s h d)); [discriminate|].
+    destruct (find_rec d (recs s)) as [rd|]; [|discriminate].
+    match type of Ho with outcome (if ?c then _ else _) = _ => destruct c end; [inversion Ho; subst; apply via_refl; reflexivity|].
+    apply soft_or_hard_out in Ho. eapply via_lput; [exact Ho | reflexivity].
 Qed.
 
 (* AddHole: the hole joins the object ids, then calls carrying its id *)
@@ -719,6 +739,27 @@ Proof.
     inversion Ho; subst. unfold uniq. simpl. unfold ids. rewrite map_map.
     replace (map _ (recs s)) with (map a_id (recs s)); [exact U|].
     apply map_ext. intros r. destruct (a_kind r); reflexivity.
+  - (* AddObjData *)
+    destruct (live_hole s h); simpl in Ho; [|discriminate].
+    destruct (Nat.ltb name 100); [discriminate|].
+    destruct (has_key name (keys_of s h)); [inversion Ho; subst; exact U|].
+    destruct (fresh s did) eqn:F; simpl in Ho; [|discriminate]. apply soft_or_hard_out in Ho.
+    unfold uniq. rewrite (lput_recs _ _ _ Ho). simpl. unfold ids. rewrite map_app. simpl.
+    fold (ids (upd_rec h (fun r => set_props (a_props r ++ [(name, did)]) r) (recs s))).
+    rewrite ids_upd_rec by (intros; apply set_props_id). apply NoDup_snoc; [exact U | apply fresh_not_in; exact F].
+  - (* SaveHole *)
+    destruct (live_hole s h); simpl in Ho; [|discriminate]. apply soft_or_hard_out in Ho.
+    match type of Ho with match lput s ?b with _ => _ end = _ => destruct (lput s b) as [s2|e] eqn:E; [|discriminate] end.
+    unfold uniq. rewrite (lput_recs _ _ _ Ho), (lput_recs _ _ _ E). exact U.
+  - (* RemoveViaGroup *)
+    destruct (live_hole s h); simpl in Ho; [|discriminate].
+    destruct (negb (owns s h d)); [discriminate|]. inversion Ho; subst. exact U.
+  - (* SetText *)
+    destruct (live_hole s h); simpl in Ho; [|discriminate].
+    destruct (negb (owns s h d)); [discriminate|].
+    destruct (find_rec d (recs s)) as [rd|]; [|discriminate].
+    match type of Ho with outcome (if ?c then _ else _) = _ => destruct c end; [inversion Ho; subst; exact U|].
+    apply soft_or_hard_out in Ho. unfold uniq. rewrite (lput_recs _ _ _ Ho). exact U.
 Qed.
 
 Lemma run_uniq ops : forall s0 s, uniq s0 -> last_state s0 (arun s0 ops) = Some s -> uniq s.
